@@ -93,14 +93,18 @@ class Acc:
 
     def newdir(self, tag: str = "d") -> Path:
         self._dirctr += 1
-        d = self.scratch / f"{tag}{self.shard}_{self._dirctr}"
+        # hostile but legal directory names (dots, '.p'/'.ih5' infixes, spaces, hidden) rotate through all work directories:
+        # file-name conventions of the subject must not be confused by the directory part of a path
+        hostile = ["plain", "my.projects", ".private", "x.ih5", "with space", "data.p2", "a.p1.ih5", "ünï"][self._dirctr % 8]
+        d = self.scratch / f"{tag}{self.shard}_{self._dirctr}" / hostile
         d.mkdir(parents=True, exist_ok=True)
         return d
 
     def rmdir(self, d: Path, collect: bool = False):
         if collect:
             gc.collect()  # failed IH5Record opens leak h5py handles until collection
-        shutil.rmtree(d, ignore_errors=True)
+        d = Path(d)
+        shutil.rmtree(d.parent if d.parent.parent == self.scratch else d, ignore_errors=True)
 
     # -- (de)serialisation
     def dump(self) -> dict:
